@@ -5,6 +5,18 @@ ROOT = os.path.dirname(os.path.dirname(os.path.abspath(__file__)))
 ids = [json.loads(l)["id"] for l in open(os.path.join(ROOT, "properties.jsonl"))]
 
 CLAIMED = {
+ "C07": dict(
+   text="Lean 4 theorems over Model/ClientAuth.lean (extract_basic_authorization incl. lenient base64, UTF-8 check, first-colon split and unquote; "
+        "authenticate_client_secret_basic / _post / authenticate_none with their raise-on-unknown-client rules; the ClientAuthentication.authenticate loop with "
+        "check_endpoint_auth_method; the 401 rule): authenticated_implies_valid_credentials_and_permitted_method (∀ requests, client tables, method lists, endpoints), "
+        "public_client_with_secret_rejected, wrong_secret_rejected, unregistered_method_rejected, exhausted_status (401 + challenge iff Basic permitted), "
+        "otherwise_invalid_client (400/401 and the challenge accompanies exactly 401). Correspondence: registered method × presented credentials (Basic header shapes, "
+        "form, query placement, several at once) × method lists × endpoints through the real ClientAuthentication; endpoint-level runs (token per grant, revocation, "
+        "introspection, device authorization) with before/after store snapshots; RFC 7523 client assertions with each claim mutated and replayed (oracle only).",
+   note="Trusted: Lean kernel; reference integrator client semantics; the JWT assertion method and its jti store are exercised against an independent oracle, not modelled "
+        "(failed assertion may record a jti: integrator callback invoked before the method check).",
+   technique="Lean 4 proof over hand-written authentication model + differential correspondence + endpoint-level side-effect oracle",
+   design="§4 C07"),
  "C05": dict(
    text="Lean 4 theorems over Model/Authorize.lean (response_type normalisation, grant lookup over RESPONSE_TYPES regenerated from the grant classes, client "
         "identification per grant, validate_authorization_redirect_uri, response-type / scope / PKCE / nonce / openid / prompt checks in code order, "
